@@ -27,7 +27,7 @@ def run(ctx):
     roles.bind(facts)
     nr = facts.fn("request::new_request")
     import parser_rules as _PRS
-    cc_read = facts.fn(_PRS.pmodel(facts).read_def)      # the head reader, bound by role (what next() calls to obtain a Request)
+    cc_read = _PRS.pmodel(facts).rd if _PRS.pmodel(facts).read_h else facts.fn(_PRS.pmodel(facts).read_def)      # the head reader, bound by role (what next() calls to obtain a Request)
     ctx.touch(nr)
     # the instance of new_request used for real connections
     insts = [i for i in facts.instances_of(nr.id) if not i["generic"] and "SequentialReader<" in i["name"]]
